@@ -31,9 +31,10 @@ VARIABLES l, l0,
           rbOK, dcOK,
           pli, rem, rdone,     \* line of the last CommitBegin (0 = none), real Cache calls since, commit finished
           sync,     \* the model and the real state are comparable in this state
+          taint,    \* some property was FALSE in an earlier state of this scenario (drift monitors are then void)
           dmsg      \* first drift noticed by an event handler ("" = none)
 
-tvars == <<vars, l, l0, ri, oi, cps, rbOK, dcOK, pli, rem, rdone, sync, dmsg>>
+tvars == <<vars, l, l0, ri, oi, cps, rbOK, dcOK, pli, rem, rdone, sync, taint, dmsg>>
 
 real  == Trace[ri].state
 rops  == IF Trace[oi].ev = "Scenario" THEN <<>> ELSE Trace[oi].ops
@@ -67,7 +68,7 @@ TraceInit ==
     /\ act = Lbl("Init", "", "", FALSE, <<>>, 0, "", TRUE)
     /\ cps = [x \in {0} |-> i]
     /\ rbOK = TRUE /\ dcOK = TRUE /\ pli = 0 /\ rem = <<>> /\ rdone = TRUE
-    /\ sync = TRUE /\ dmsg = ""
+    /\ sync = TRUE /\ taint = FALSE /\ dmsg = ""
 
 Ev == Trace[l]
 Here(kind) == l <= Len(Trace) /\ Trace[l].ev = kind
@@ -193,25 +194,29 @@ Report ==
   /\ Viol("C13_RollbackObs", C13_RollbackObs) /\ Viol("C13_DiscardObs", C13_DiscardObs) /\ Viol("C13_CommitNetObs", C13_CommitNetObs)
   /\ Viol("C14_JobObs", C14_JobObs) /\ Viol("C14_QueueObs", C14_QueueObs) /\ Viol("C14_VectorObs", C14_VectorObs)
   /\ Viol("C14_NodeBaseObs", C14_NodeBaseObs)
-TraceNext == Healthy /\ (TraceCall \/ TraceCache \/ TraceH)
+AllC == C13_RollbackObs /\ C13_DiscardObs /\ C13_CommitNetObs /\ C14_JobObs /\ C14_QueueObs /\ C14_VectorObs /\ C14_NodeBaseObs
+TraceNext == Healthy /\ (TraceCall \/ TraceCache \/ TraceH) /\ taint' = (taint \/ ~AllC)
 TraceSpec == TraceInit /\ [][TraceNext]_tvars
 
 (***************************************************************************)
 (* Drift monitors: model prediction vs real                                *)
 (***************************************************************************)
-D_Pods   == sync => RPods(real) = pod
-D_Nodes  == sync => RNodes(real) = node
-D_Jobs   == sync => RJobs(real) = [j \in Jobs |-> JobCounters(job[j])]
-D_Queues == sync => RQueues(real) = [q \in Queues |-> QueueCounters(queue[q])]
-D_Ops    == (sync /\ phase = "open") =>
+\* after a property violation (of either family) the real code has left the specified behaviour: the model's
+\* predictions are then not comparable any more (no drift verdict for the rest of the scenario)
+Clean == sync /\ ~taint /\ AllC
+D_Pods   == Clean => RPods(real) = pod
+D_Nodes  == Clean => RNodes(real) = node
+D_Jobs   == Clean => RJobs(real) = [j \in Jobs |-> JobCounters(job[j])]
+D_Queues == Clean => RQueues(real) = [q \in Queues |-> QueueCounters(queue[q])]
+D_Ops    == (Clean /\ phase = "open") =>
               /\ Len(rops) = Len(ops)
               /\ \A i \in 1..Len(ops) : LET r == ROps(rops)[i] IN
                     /\ r.k = ops[i].k /\ r.p = ops[i].p
                     /\ (ops[i].k = "undo" => r.tgt = ops[i].tgt)
                     /\ r.valid = OpValid(ops, i)
-D_Msg    == dmsg = ""
-D_NoErr  == (sync /\ act.n \notin {"Init", "CommitEnd"}) => act.ok
-D_CommitErr == (sync /\ act.n = "CommitEnd") => (act.ok <=> \A x \in 1..Len(rem) : rem[x].ok)
+D_Msg    == (~taint /\ AllC) => dmsg = ""
+D_NoErr  == (Clean /\ act.n \notin {"Init", "CommitEnd"}) => act.ok
+D_CommitErr == (Clean /\ act.n = "CommitEnd") => (act.ok <=> \A x \in 1..Len(rem) : rem[x].ok)
 \* the model's own initial state (fold of AddTask in pod order, declarative counters) equals the real snapshot
 D_Init   == (l = l0 + 1) =>
               /\ node = [n \in Nodes |-> FoldInit(n, EmptyNode(n), {p \in Pods : cfg.pods[p].node = n /\ ActiveUsed(cfg.pods[p].st)})]
